@@ -198,7 +198,9 @@ def check_writer_index(case, rec):
         if not res['accepted']:
             rec.stat('programs_rejected')
             return
-        nseg = sum(len(c) for c in prog['sessions'])
+        nseg = sum(1 for c in prog['sessions'] for call in c if not isinstance(call, dict))
+        if nseg == 0:
+            return
         rec.nontrivial(nseg >= 2)
         path = res['path']
         snaps = {}
